@@ -40,19 +40,29 @@ fn blob_with_len(len: usize, signer: bool) -> Blob {
     }
 }
 
-// @verif prop=C11 tier=quick shape="blob length free usize in 1..=2^32 (data never read), signer present or absent" funcs="Blob::shares_len"
-#[kani::proof]
-#[kani::unwind(2)]
-fn c11_shares_len_matches_share_format() {
+fn shares_len_matches(signer: bool) {
     let len: usize = kani::any();
     kani::assume(len >= 1 && len <= (1usize << 32));
-    let signer: bool = kani::any();
     let blob = blob_with_len(len, signer);
     let got = blob.shares_len();
     assert!(got == ref_shares(len, signer), "C11 shares_len: reported share count differs from the number of shares the format needs");
-    kani::cover!(signer && len > 458 && len <= 478, "witness: signer blob in the 20-byte window");
-    kani::cover!(!signer && len > 478, "witness: multi-share blob");
+    kani::cover!(len > 458 && len <= 478, "witness: length in the 20-byte signer window");
+    kani::cover!(len > 478 + 482, "witness: three or more shares");
     std::mem::forget(blob);
+}
+
+// @verif prop=C11 tier=quick shape="blob length free in 1..=2^32 (data never read), share version 1 with signer" funcs="Blob::shares_len,shares_needed_for_blob"
+#[kani::proof]
+#[kani::unwind(2)]
+fn c11_shares_len_signed() {
+    shares_len_matches(true);
+}
+
+// @verif prop=C11 tier=quick shape="blob length free in 1..=2^32 (data never read), share version 0 without signer" funcs="Blob::shares_len,shares_needed_for_blob"
+#[kani::proof]
+#[kani::unwind(2)]
+fn c11_shares_len_unsigned() {
+    shares_len_matches(false);
 }
 
 // NOTE (measured, stated as outside the claim): executing `Blob::to_shares` / `Blob::reconstruct`
